@@ -4,6 +4,7 @@
 mod rt;
 mod doubles;
 mod lin;
+mod promparse;
 mod props;
 
 fn main() {
